@@ -61,3 +61,32 @@ Theorem C12_fixed_step_refusal_raises :
     adaptive _ o = false -> refuse dt = true -> euler_dt OpsR o refuse dt = None.
 Proof. exact fixed_step_refusal_raises. Qed.
 Print Assumptions C12_fixed_step_refusal_raises.
+
+(* whole histories: whatever is refused and whatever the dynamics do, every step used and every proposal of a run
+   lies in (0, dt_max] *)
+Theorem C12_all_steps_bounded :
+  forall (o : optsR), 0 < dt_init _ o -> dt_init _ o <= dt_max _ o -> 0 < mult _ o < 1 ->
+    half _ o = 1/2 -> 0 < floor_ _ o ->
+  forall l s step, Inv o s -> Forall (entry_ok o) (ahist OpsR o s step l).
+Proof. exact all_steps_bounded. Qed.
+Print Assumptions C12_all_steps_bounded.
+
+Theorem C12_fixed_steps_all :
+  forall (o : optsR) l s step,
+    adaptive _ o = false -> tentative _ s = dt_init _ o ->
+    Forall (fun x => match x with Some (dt, tn) => dt = dt_init _ o /\ tn = dt_init _ o | None => True end)
+           (ahist OpsR o s step l).
+Proof. exact fixed_steps_all. Qed.
+Print Assumptions C12_fixed_steps_all.
+
+(* a stationary state (nothing refused, |psi|^2 unchanged): dt_init up to step window+1, dt_max ever after *)
+Theorem C12_dt_grows_to_max :
+  forall (o : optsR), 0 < dt_init _ o -> dt_init _ o <= dt_max _ o ->
+    half _ o = 1/2 -> 0 < floor_ _ o -> adaptive _ o = true ->
+    dt_max _ o <= 1/2 * (dt_init _ o / floor_ _ o) ->
+  forall n i, (i < n)%nat ->
+    nth_error (ahist OpsR o (ainit OpsR o) 0 (repeat stat n)) i
+    = Some (Some (if Nat.ltb (S (window _ o)) i then dt_max _ o else dt_init _ o,
+                  if Nat.ltb (window _ o) i then dt_max _ o else dt_init _ o)).
+Proof. exact dt_grows_to_max. Qed.
+Print Assumptions C12_dt_grows_to_max.
